@@ -11,6 +11,7 @@
      lexerr <Name> <n1> [<n2> ..] / <tokstart> <tokend>   -> spans orig | spans fixed
      split <s> <e> <pc>                   -> a-b c-d | PANIC
      cap <max> <w1.w2...>                 -> orig=.. fixed=..
+     toml <tree>                          toml_edit-shaped document (see checks/c10_gen.py TomlDoc) -> VAL | ERR
      prio <B|N|T|p/q> <B|N|T|p/q>         merge_fields value selection -> VAL both|left|right
    This file only parses and prints. *)
 open C10_model
@@ -178,6 +179,28 @@ let handle (line : string) : string =
     (match select_value true true (pr a) (pr b) with
      | Val MergeBoth -> "VAL both" | Val TakeLeft -> "VAL left" | Val TakeRight -> "VAL right" | Val NoValue -> "VAL none"
      | Error c -> "ERR " ^ c | Panic s -> "PANIC " ^ s)
+  | ["toml"; t] ->
+    (* item: V<value> | T[item*] | A[[item*]*];  value: f | n | o | a[value*] | i[value*] *)
+    let pos = ref 0 in
+    let n = String.length t in
+    let peek () = if !pos < n then t.[!pos] else '$' in
+    let eat c = if peek () = c then incr pos else failwith (Printf.sprintf "toml tree: expected %c at %d" c !pos) in
+    let rec many f = if peek () = ']' then [] else (let x = f () in x :: many f) in
+    let rec value () =
+      match peek () with
+      | 'f' -> incr pos; VFloat true
+      | 'n' -> incr pos; VFloat false
+      | 'o' -> incr pos; VOther
+      | 'a' -> incr pos; eat '['; let l = many value in eat ']'; VArray l
+      | 'i' -> incr pos; eat '['; let l = many value in eat ']'; VInline l
+      | c -> failwith (Printf.sprintf "toml tree: bad value %c" c) in
+    let rec item () =
+      match peek () with
+      | 'V' -> incr pos; IValue (value ())
+      | 'T' -> incr pos; eat '['; let l = many item in eat ']'; ITable l
+      | 'A' -> incr pos; eat '['; let l = many (fun () -> eat '['; let l = many item in eat ']'; l) in eat ']'; IAoT l
+      | c -> failwith (Printf.sprintf "toml tree: bad item %c" c) in
+    (match from_doc (item ()) with Val () -> "VAL" | Error c -> "ERR" | Panic s -> "PANIC " ^ s)
   | ["cap"; mx; ws] ->
     let w = split_dots ws and m = z_of_string mx in
     let sh o = (match o with Val l -> "VAL " ^ string_of_int (List.length l) | Error c -> "ERR" | Panic _ -> "PANIC") in
